@@ -221,6 +221,9 @@ class FnAnalysis:
                         for c in sorted(cells):
                             vals = list(call.args) + [k.value for k in call.keywords]
                             evs.append(("write", c, vals, call, False, cands))
+                        # callback(setattr, obj, "cell_attr", value) and other primitive writers
+                        for cell, mode, n2 in primitive_writes(self.fn, call):
+                            evs.append(("write", cell, list(call.args), call, mode == "inplace", []))
         return evs
 
     def _apply_events(self, s, events, record):
